@@ -62,6 +62,9 @@ impl Instrument for InstallProbes {
 #[derive(Clone, Debug, Default)]
 struct Limits {
     runtime: Option<(u64, u64)>, // limit ns, frequency
+    /// number of `combined` models the runtime model is nested in (each level re-evaluates it once more
+    /// while the termination is being explained)
+    runtime_depth: u32,
     iterations: Option<u64>,
     size: Option<u64>,
 }
@@ -72,13 +75,19 @@ fn parse_hms(s: &str) -> u64 {
 }
 
 fn parse_limits(t: &Value, out: &mut Limits) {
+    parse_limits_at(t, out, 0)
+}
+fn parse_limits_at(t: &Value, out: &mut Limits, depth: u32) {
     match t["type"].as_str().unwrap_or("") {
-        "query_runtime" => out.runtime = Some((parse_hms(t["limit"].as_str().unwrap_or("0:00:00")), t["frequency"].as_u64().unwrap_or(1))),
+        "query_runtime" => {
+            out.runtime = Some((parse_hms(t["limit"].as_str().unwrap_or("0:00:00")), t["frequency"].as_u64().unwrap_or(1)));
+            out.runtime_depth = depth;
+        }
         "iterations" => out.iterations = Some(t["limit"].as_u64().unwrap_or(0)),
         "solution_size" => out.size = Some(t["limit"].as_u64().unwrap_or(0)),
         "combined" => {
             for m in t["models"].as_array().cloned().unwrap_or_default() {
-                parse_limits(&m, out);
+                parse_limits_at(&m, out, depth + 1);
             }
         }
         _ => {}
@@ -92,7 +101,7 @@ fn fmt_hms(ns: u64) -> String {
 
 fn gen(seed: u64, family: &str, tier: Tier) -> Case {
     let mut r = Rng::new(seed ^ fnv64("C10"));
-    let gp = GraphParams { p_no_dead_ends: 0.8, p_disconnected: 0.25, ..graph_params(tier) };
+    let gp = GraphParams { p_no_dead_ends: if family == "yens" { 1.0 } else { 0.8 }, p_disconnected: if family == "yens" { 0.0 } else { 0.25 }, ..graph_params(tier) };
     let mut w = World::gen_graph(&mut r, &gp);
     gen_traversal(&mut r, &mut w);
     gen_algorithm(&mut r, &mut w, false, false);
@@ -111,6 +120,13 @@ fn gen(seed: u64, family: &str, tier: Tier) -> Case {
         // check other than the one at loop turn 0
         w.algorithm = json!({"type": "ksp_single_via", "k": r.range(1, 3), "underlying": if r.chance(0.5) { json!({"type": "dijkstra"}) } else { json!({"type": "a*"}) }});
     }
+    if family == "yens" {
+        // Yen's algorithm: one shortest-path search, then one spur search per spur vertex, every one under the
+        // same iteration limit. (A similarity threshold: with the default accept-all function no pass ever
+        // accepts a candidate, which is a recorded finding.)
+        w.algorithm = json!({"type": "yens", "k": r.range(2, 3), "underlying": if r.chance(0.5) { json!({"type": "dijkstra"}) } else { json!({"type": "a*"}) },
+            "similarity": {"type": "edge_id_cosine_similarity", "threshold": many_digits(&mut r, 0.5, 0.99)}});
+    }
     let runtime = if family == "ksp" { json!({"type": "query_runtime", "limit": fmt_hms(limit_s.max(1) * 1_000_000_000), "frequency": 100000}) } else { runtime };
     w.termination = match family {
         "runtime" | "ksp" => runtime,
@@ -124,6 +140,7 @@ fn gen(seed: u64, family: &str, tier: Tier) -> Case {
             }
         }
         "iterations" => iters,
+        "yens" => json!({"type": "iterations", "limit": r.range(1, 16)}),
         "size" => size,
         _ => {
             let mut ms = vec![runtime];
@@ -134,6 +151,14 @@ fn gen(seed: u64, family: &str, tier: Tier) -> Case {
                 ms.push(size);
             }
             r.shuffle(&mut ms);
+            // combined models may be nested (the builder supports it): wrap a prefix of the list once or twice
+            let mut nestings = 0;
+            while ms.len() >= 1 && nestings < 3 && r.chance(0.35) {
+                let k = r.range(1, ms.len() as u64) as usize;
+                let inner: Vec<Value> = ms.drain(0..k).collect();
+                ms.insert(r.below(ms.len() as u64 + 1) as usize, json!({"type": "combined", "models": inner}));
+                nestings += 1;
+            }
             json!({"type": "combined", "models": ms})
         }
     };
@@ -144,6 +169,37 @@ fn gen(seed: u64, family: &str, tier: Tier) -> Case {
     w.edge_oriented = edge_family;
     for qid in 0..nq {
         let (mut q, _) = gen_query(&mut r, &w, &pc, qid, false);
+        if family == "yens" {
+            // Yen's algorithm only gets past its two recorded defects when the best route has three or more
+            // edges: choose pairs that are at least three hops apart (when the network has any)
+            let hops = |from: usize| -> Vec<usize> {
+                let mut d = vec![usize::MAX; w.nv()];
+                d[from] = 0;
+                let mut q = std::collections::VecDeque::from([from]);
+                while let Some(x) = q.pop_front() {
+                    for e in w.edges.iter().filter(|e| e.0 == x) {
+                        if d[e.1] == usize::MAX {
+                            d[e.1] = d[x] + 1;
+                            q.push_back(e.1);
+                        }
+                    }
+                }
+                d
+            };
+            let mut pairs = vec![];
+            for o in 0..w.nv() {
+                for (d, h) in hops(o).into_iter().enumerate() {
+                    if h != usize::MAX && h >= 3 {
+                        pairs.push((o, d));
+                    }
+                }
+            }
+            if !pairs.is_empty() {
+                let (o, d) = *r.pick(&pairs);
+                q["origin_vertex"] = json!(o);
+                q["destination_vertex"] = json!(d);
+            }
+        }
         if edge_family {
             // the edge-oriented wrapper runs the same search between the inner ends of the two edges
             let ne = w.ne().max(1) as u64;
@@ -154,7 +210,11 @@ fn gen(seed: u64, family: &str, tier: Tier) -> Case {
     }
     let mut simcfg = gen_simcfg(&mut r);
     simcfg.clock_tick_ns = 1_000;
-    if family != "iterations" && family != "size" {
+    if family == "yens" {
+        simcfg.max_steps = 400_000;
+        simcfg.max_alloc_bytes = 48 << 20;
+    }
+    if family != "iterations" && family != "size" && family != "yens" {
         simcfg.faults = match r.below(3) {
             0 => sim::F_CLOCK_JUMP,
             1 => sim::F_THREAD_STALL,
@@ -302,7 +362,7 @@ fn walk(seg: &Segment, lim: &Limits, exact: bool, size_may_fire: bool) -> Result
                 if f != 0 && i % f == 0 && !reasons.contains(&"runtime") {
                     let mut p2 = pos;
                     let mut seen = 0;
-                    while p2 < ev.len() && ev[p2].kind == K_MONO && seen < 2 {
+                    while p2 < ev.len() && ev[p2].kind == K_MONO && seen < (lim.runtime_depth + 1).max(2) {
                         if ev[p2].clock.saturating_sub(start) > limit {
                             reasons.push("runtime?");
                             break;
@@ -425,7 +485,7 @@ fn judge(case: &Case, obs: &Obs) -> (Vec<Violation>, BTreeMap<String, u64>, bool
                 v.push(Violation { class: "route-differs-from-unlimited".into(), detail: format!("query {}: route {} vs unlimited {}", qid, resp["route"]["path"], unlimited["route"]["path"]) });
             }
             bump("completed_under_limit", 1);
-            if let (Some(l), Some(n), true) = (lim.iterations, resp.get("iterations").and_then(|x| x.as_u64()), exact && case.family != "edge") {
+            if let (Some(l), Some(n), true) = (lim.iterations, resp.get("iterations").and_then(|x| x.as_u64()), exact && case.family != "edge" && case.family != "yens") {
                 if n > l {
                     v.push(Violation { class: "iterations-over-limit".into(), detail: format!("query {} reports {} iterations under an iteration limit of {}", qid, n, l) });
                 }
@@ -437,7 +497,7 @@ fn judge(case: &Case, obs: &Obs) -> (Vec<Violation>, BTreeMap<String, u64>, bool
             }
         }
         // iteration limit: stopped iff the unlimited search needs at least `limit` loop turns that expand
-        if let (Some(l), Some(n), true) = (lim.iterations, n_unl, exact) {
+        if let (Some(l), Some(n), true) = (lim.iterations, n_unl, exact && case.family != "yens") {
             let must_stop = l <= n;
             if must_stop && !terminated {
                 v.push(Violation { class: "iteration-limit-ignored".into(), detail: format!("query {}: the unlimited search expands {} times, the iteration limit is {}, yet the search was not stopped", qid, n, l) });
@@ -453,6 +513,51 @@ fn judge(case: &Case, obs: &Obs) -> (Vec<Violation>, BTreeMap<String, u64>, bool
             if s <= l && said.contains(&"size") {
                 v.push(Violation { class: "size-limit-early".into(), detail: format!("query {}: stopped by the size limit {} although the unlimited tree has only {} entries", qid, l, s) });
             }
+        }
+        if case.family == "yens" {
+            // every sub-search starts by reading its start time; with an iteration limit only, no other
+            // monotonic read happens inside a search, so the reads split the history into sub-searches
+            // (reads after the last search - progress reporting - open empty sub-histories, which are harmless
+            // for limits >= 1). All searches run forward, so expansion groups are loop turns; edges cut by the
+            // algorithm can hide a turn, which can only lose a detection, never raise one.
+            if let (Some(seg), Some(l), true) = (by_qid.get(&qid), lim.iterations, exact) {
+                let mut subs: Vec<u64> = vec![];
+                let mut last_src = u64::MAX;
+                for e in &seg.events {
+                    if e.kind == K_MONO {
+                        subs.push(0);
+                        last_src = u64::MAX;
+                    } else if e.kind == PROBE_EXPAND {
+                        if let Some(n) = subs.last_mut() {
+                            if e.a != last_src {
+                                *n += 1;
+                                last_src = e.a;
+                            }
+                        }
+                    }
+                }
+                bump("yens_subsearches_walked", subs.iter().filter(|n| **n > 0).count() as u64);
+                if let Some(n) = subs.iter().find(|n| **n > l) {
+                    v.push(Violation { class: "ksp-subsearch-over-iteration-limit".into(), detail: format!("query {}: a sub-search expanded {} times under an iteration limit of {} (sub-searches: {:?})", qid, n, l, subs) });
+                }
+                let exhausted = subs.iter().any(|n| *n >= l);
+                if exhausted {
+                    bump("yens_subsearch_exhausted", 1);
+                    if subs.iter().skip(1).any(|n| *n >= l) && subs.first().map_or(false, |n| *n < l) {
+                        bump("yens_spur_search_exhausted_first_search_not", 1);
+                    }
+                }
+                if exhausted && !terminated && resp.get("error").is_none() {
+                    v.push(Violation { class: "ksp-exhausted-but-not-terminated".into(), detail: format!("query {}: a sub-search used up the iteration limit of {} (expansions per sub-search: {:?}) but the response is not a termination error: {} route(s)", qid, l, subs, resp["route"].as_array().map_or(1, |a| a.len())) });
+                }
+                if !terminated && resp.get("error").is_none() {
+                    let n_routes = |r: &Value| r["route"].as_array().map_or(1, |a| a.len());
+                    if n_routes(&resp) != n_routes(&unlimited) {
+                        v.push(Violation { class: "ksp-route-count-differs-from-unlimited".into(), detail: format!("query {}: {} route(s) under the limit, {} without", qid, n_routes(&resp), n_routes(&unlimited)) });
+                    }
+                }
+            }
+            continue;
         }
         if case.family == "ksp" {
             // each sub-search (forward, then reverse) reads its own start time, then checks at loop turn 0
@@ -535,7 +640,7 @@ impl Check for C10 {
         "C10"
     }
     fn families(&self, _tier: Tier) -> Vec<&'static str> {
-        vec!["runtime", "runtime", "combined", "iterations", "size", "combined", "ksp", "edge"]
+        vec!["runtime", "runtime", "combined", "iterations", "size", "combined", "ksp", "edge", "combined", "yens", "runtime"]
     }
     fn default_runs(&self, tier: Tier) -> u64 {
         match tier {
@@ -580,7 +685,10 @@ impl Check for C10 {
         if what.contains("deadlock") {
             Some(Violation { class: "deadlock".into(), detail: what.into() })
         } else if what.contains("budget") {
-            Some(Violation { class: "unbounded".into(), detail: what.into() })
+            // (the configured algorithm identifies the input family that fails, as in C12)
+            let algo = case.world.algorithm["type"].as_str().unwrap_or("?");
+            let site = what.split(" @").nth(1).unwrap_or("unknown");
+            Some(Violation { class: if algo == "yens" { format!("unbounded[{}]@{}", algo, site) } else { "unbounded".into() }, detail: what.into() })
         } else {
             Some(Violation { class: format!("abort:{}{}", what, if f0 { "[frequency=0]" } else { "" }), detail: what.into() })
         }
